@@ -496,6 +496,7 @@ impl Dfs<'_> {
         depth_left: usize,
         closure: Option<&HashSet<Shape>>,
         cap: usize,
+        within_cap: bool,
     ) where
         (): SortedDequeMarker<T, Key = T::K>,
     {
@@ -524,7 +525,8 @@ impl Dfs<'_> {
                     if <C as Cont<T>>::SPY {
                         if let Some(cl) = closure {
                             let shape = next.shape();
-                            if shape.0 - shape.1 <= cap && !cl.contains(&shape) {
+                            // only paths that stayed within the closure's size bound all along are covered by it
+                            if within_cap && shape.0 - shape.1 <= cap && !cl.contains(&shape) {
                                 machinery_failure(&format!(
                                     "abstraction unsound: DFS reached shape {:?} outside the closure via {}",
                                     shape,
@@ -544,7 +546,11 @@ impl Dfs<'_> {
                         self.rep.sample(text);
                     }
                     if depth_left > 1 {
-                        self.go(&next, depth_left - 1, closure, cap);
+                        let within = within_cap && {
+                            let sh = next.shape();
+                            sh.0 - sh.1 <= cap
+                        };
+                        self.go(&next, depth_left - 1, closure, cap, within);
                     } else {
                         self.rep.outcome(hash_of(&(
                             next.m.len(),
@@ -617,7 +623,7 @@ pub fn dfs<T: Conv, C: Cont<T>>(
                     path,
                     depth: depth + prefix.len(),
                 };
-                d.go(&st, depth - 2, closure, cap);
+                d.go(&st, depth - 2, closure, cap, prefix.is_empty());
             }
             rep.max_depth = rep.max_depth.max(depth as u64);
         }
